@@ -5,6 +5,7 @@
 package c21_remote
 
 import (
+	"sync/atomic"
 	"context"
 	"crypto/sha1"
 	"crypto/sha256"
@@ -22,6 +23,7 @@ import (
 	"google.golang.org/protobuf/proto"
 	"pgregory.net/rapid"
 
+	"github.com/mutagen-io/mutagen/pkg/filesystem"
 	"github.com/mutagen-io/mutagen/pkg/identifier"
 	"github.com/mutagen-io/mutagen/pkg/logging"
 	"github.com/mutagen-io/mutagen/pkg/synchronization"
@@ -118,6 +120,38 @@ type Op struct {
 	Plan []*PlanItem `json:"plan,omitempty"`
 	// BadSource makes the supplied data for the i-th staged file corrupt.
 	BadSource int `json:"bad_source,omitempty"`
+	// CancelMid: the context given to Transition is cancelled when the
+	// transition performs its first mutating filesystem operation (which is
+	// then held for 2 s, so that the cancellation reaches the endpoint
+	// wherever it runs); the sequence ends after this cycle.
+	CancelMid bool `json:"cancel_mid_transition,omitempty"`
+}
+
+// cancelAtFirstMutation arms the filesystem hook: the first mutating
+// operation calls cancel and is held for two seconds.
+func cancelAtFirstMutation(cancel func()) (disarm func()) {
+	var fired atomic.Bool
+	filesystem.VerifSetInjector(func(op, path string) error {
+		switch op {
+		case "mkdirat", "symlinkat", "renameat", "renameat2", "unlinkat":
+			if fired.CompareAndSwap(false, true) {
+				cancel()
+				time.Sleep(2 * time.Second)
+			}
+		}
+		return nil
+	})
+	return func() { filesystem.VerifSetInjector(nil) }
+}
+
+func cancelledProblems(ps []*core.Problem) int {
+	n := 0
+	for _, p := range ps {
+		if strings.Contains(p.Error, "cancel") {
+			n++
+		}
+	}
+	return n
 }
 
 // PlanItem is an abstract transition.
@@ -232,7 +266,10 @@ func snapshotDiff(a, b *core.Snapshot) string {
 }
 
 type stats struct {
-	scans, cycles, shortFiltered, emptyRootScans, restores int
+	scans, cycles, shortFiltered, emptyRootScans, restores, cancelled int
+	// cancelComplaint is a timing-dependent complaint (re-executed by the
+	// caller before it is reported).
+	cancelComplaint string
 }
 
 func judge(c *Case, dir string) (violation string, st stats) {
@@ -452,6 +489,23 @@ func judge(c *Case, dir string) (violation string, st stats) {
 			// would hand it over; results are paired with the list as the
 			// caller holds it afterwards.
 			planL, planR := append([]*core.Change{}, plan...), append([]*core.Change{}, plan...)
+			if op.CancelMid && len(plan) >= 2 {
+				ctxL, cancelL := context.WithCancel(ctx)
+				disarm := cancelAtFirstMutation(cancelL)
+				_, probL, _, _ := L.Transition(ctxL, planL)
+				disarm()
+				cancelL()
+				ctxR, cancelR := context.WithCancel(ctx)
+				disarm = cancelAtFirstMutation(cancelR)
+				_, probR, _, _ := R.Transition(ctxR, planR)
+				disarm()
+				cancelR()
+				st.cancelled++
+				if kl, kr := cancelledProblems(probL), cancelledProblems(probR); kl > 0 && kr == 0 {
+					st.cancelComplaint = fmt.Sprintf("op %d: the context was cancelled during the first of %d changes (held for 2 s): the local endpoint leaves %d changes unapplied as cancelled, the remote endpoint reports none as cancelled (problems: %s)", oi, len(plan), kl, renderProblems(probR, r1, r2))
+				}
+				return "", st
+			}
 			resL, probL, missL, tel := L.Transition(ctx, planL)
 			resR, probR, missR, ter := R.Transition(ctx, planR)
 			if (tel == nil) != (ter == nil) {
@@ -552,6 +606,10 @@ func drawCase(rt *rapid.T) *Case {
 				op.BadSource = rapid.IntRange(1, 3).Draw(rt, "bad.i")
 			}
 			c.Ops = append(c.Ops, op)
+			if len(op.Plan) >= 2 && rapid.IntRange(0, ev.Pick(24, 99)).Draw(rt, "cancel-mid") == 0 {
+				op.CancelMid = true
+				return c
+			}
 		}
 	}
 	return c
@@ -580,7 +638,7 @@ func TestMirroredEndpoints(t *testing.T) {
 	if ev.ReplayPath() != "" {
 		t.Skip()
 	}
-	rec := ev.New(t, prop, "mirrored-local-and-remote", "rapid: two identical roots, one behind local.NewEndpoint, one behind remote.NewEndpoint <-> remote.ServeEndpoint over an in-memory pipe (read fragments 1/7/4096/unlimited; none or deflate compression; sha1/sha256; first baseline from a nil or a matching ancestor); 2-10 operations: identical edits on both roots (incl. emptying or removing the root and putting it back exactly as it was at the last scan that found content), scans (full or not), and cycles (scan, stage a generated plan, supply both receivers from the same source with an optionally corrupt file, transition); after each operation snapshots (content, flags, counters), filtered paths, signatures, results, problems (paths normalised), missing-files flags and both roots must agree, and errors must occur on both or neither; non-trivial: >= 2 scans separated by edits and >= 1 stage whose filtered list is non-empty and shorter than the request")
+	rec := ev.New(t, prop, "mirrored-local-and-remote", "rapid: two identical roots, one behind local.NewEndpoint, one behind remote.NewEndpoint <-> remote.ServeEndpoint over an in-memory pipe (read fragments 1/7/4096/unlimited; none or deflate compression; sha1/sha256; first baseline from a nil or a matching ancestor); 2-10 operations: identical edits on both roots (incl. emptying or removing the root and putting it back exactly as it was at the last scan that found content), scans (full or not), and cycles (scan, stage a generated plan, supply both receivers from the same source with an optionally corrupt file, transition; about one case in ten ends with a cycle whose Transition context is cancelled at its first mutating filesystem operation, held for 2 s: a remote endpoint must then report cancelled changes if the local one does — re-executed three times); after each operation snapshots (content, flags, counters), filtered paths, signatures, results, problems (paths normalised), missing-files flags and both roots must agree, and errors must occur on both or neither; non-trivial: >= 2 scans separated by edits and >= 1 stage whose filtered list is non-empty and shorter than the request")
 	base := t.TempDir()
 	env, err := sess.NewEnv(filepath.Join(base, "data"))
 	if err != nil {
@@ -595,9 +653,29 @@ func TestMirroredEndpoints(t *testing.T) {
 		os.Mkdir(dir, 0o700)
 		defer os.RemoveAll(dir)
 		v, st := judge(c, dir)
+		// A complaint about cancellation depends on timing: it is reported
+		// only if three executions agree.
+		for attempt := 0; v == "" && st.cancelComplaint != "" && attempt < 2; attempt++ {
+			n++
+			again := filepath.Join(base, fmt.Sprintf("c%d", n))
+			os.Mkdir(again, 0o700)
+			var st2 stats
+			v, st2 = judge(c, again)
+			os.RemoveAll(again)
+			if v == "" && st2.cancelComplaint == "" {
+				st.cancelComplaint = ""
+				rec.Class("cancellation-complaint-not-reproduced")
+			}
+		}
+		if v == "" && st.cancelComplaint != "" {
+			v = st.cancelComplaint + " (in each of 3 executions)"
+		}
 		rec.Eval()
 		if v != "" {
 			ev.Failf(rt, rec, c, "%s", v)
+		}
+		if st.cancelled > 0 {
+			rec.Class("context-cancelled-during-transition")
 		}
 		if st.scans >= 2 {
 			rec.Class("two-or-more-scans")
